@@ -137,6 +137,7 @@ func runC06(seed int64, n int, dir string, _ []string) {
 	castAll(g, o, pr, n/2)
 	unaryOps(g, o, pr, n/2)
 	dateTexts(g, o, 2*n)
+	zoneTexts(g, o, pr, n)
 
 	// exhaustive Kleene tables against min/max/negation, on the real ternary package
 	tv := []ternary.Value{ternary.FALSE, ternary.UNKNOWN, ternary.TRUE}
